@@ -43,13 +43,13 @@ def nodal_rows(snap, colmap=None):
 
 
 def run_case(rng, tier, case):
-    base = gen.gen_mixed_portfolio(rng, kinds=('contract', 'transport', 'transport', 'storage', 'storage', 'multi', 'orderbook', 'plant', 'chp', 'structured', 'scaled', 'coarse', 'periodic'),
+    base = gen.gen_mixed_portfolio(rng, kinds=('contract', 'transport', 'transport', 'storage', 'storage', 'multi', 'orderbook', 'plant', 'chp', 'structured', 'scaled', 'coarse', 'periodic', 'coarse_pair'),
                                    grid_kw={'steps': (4, 20)}, n_assets=(2, 5), n_nodes=(1, 3))
     spec = gen.strip_private(base)
     if rng.random() < 0.5:
         # mixed discount rates on top-level assets
         for a in spec['assets']:
-            if 'wacc' in a and a['type'] not in ('ScaledAsset',) and not a.get('freq') and not a.get('periodicity'):
+            if 'wacc' in a and a['type'] not in ('ScaledAsset',) and not a.get('periodicity') and not a['name'].startswith('cp'):
                 a['wacc'] = gen.pick(rng, [0., 0.05, 0.1, 0.3])
     mip = gen.is_mip(spec)
     tolv = solve.TOL_VAL_MIP if mip else solve.TOL_VAL
